@@ -8,8 +8,10 @@
      secure      the model of clone.Secure (SecureModel.v, function by function, with the code's panic sites).
      sec_at v x  x is the value of an exported field tagged coerce:"secure" reachable in v through exported untagged
                  struct fields, embedded structs / non-nil *structs of unexported types (their fields are promoted and
-                 serialised), pointers, slices, map values and interface values.  NOT through arrays and NOT through
-                 ordinary unexported fields: the two documented exclusions of clone.Secure.
+                 serialised), pointers, slices, map values and interface values; or of ANY exported field promoted
+                 ([promoted]) through an embedded struct / *struct of unexported type that is itself tagged secure: a leaf
+                 is secret if any field on its path, embedded ones included, carries the tag.  NOT through arrays and NOT
+                 through ordinary unexported fields: the two documented exclusions of clone.Secure.
      hidden x    x = "[secret hidden]" or x is the zero value of its type.
      erase v     v with the values of the exposed secure-tagged fields blanked; equal erasures = same shape, same field
                  metadata, same map keys, same nil-ness, same untagged data (unexported fields and whole arrays included).
@@ -105,8 +107,8 @@ Proof. exact render_hides. Qed.
 Print Assumptions c17_report.
 
 (* The registry: findSecrets returns an error exactly when some field - exported or not - reachable through struct
-   fields and pointers (any depth; the walk does NOT enter slices, maps, arrays, and an interface has no static fields)
-   has a secret-looking name and neither the secure nor the ignore tag; Register accepts exactly when neither the
+   fields, pointers, slices, arrays and maps (keys and elements), at any depth ([reach]; an interface has no static
+   fields) has a secret-looking name and neither the secure nor the ignore tag; Register accepts exactly when neither the
    request nor the response type has such a field. *)
 Theorem c17_registry :
   (forall t : ty, find_secrets t <> None <-> exists m, reach t m /\ offending m = true) /\
